@@ -45,6 +45,15 @@ def app_jobs(ids, variant="n"):
     return js
 
 
+DIST_INC = ["/verif/engine/simmpi", "/repo/libdist/include", "/repo/libgluon/include", "/repo/libcusp/include", "/repo/lonestar/libdistbench/include"]
+
+
+def dist_build(libs=("libgalois", "libdist", "simmpi"), **kw):
+    b = dict(libs=list(libs), extra_inc=DIST_INC, extra_flags=["-DGALOIS_SUPPORT_ASYNC=1", "-isystem", "/usr/lib/llvm-14/include"])
+    b.update(kw)
+    return b
+
+
 PROPS = {
     "C01": dict(
         jobs=loop_jobs([0, 1, 2, 3]),
@@ -191,6 +200,18 @@ PROPS = {
                    "1-16 threads and synthetic topologies, on generated small graphs (disconnected, hubs, zero/large weights, parallel edges and self loops where the application accepts them) written by the harness writer. "
                    "Oracle: the printed summary compared with independent references in the driver (Dijkstra/BFS, union-find, peeling, brute-force triangles, Kruskal, enumeration of maximal independent sets).",
         level_note="Sampling over seeds and schedules; shared-memory applications only at this commit (distributed ones are covered when the multi-host world is registered). The applications' own verify steps stay on but are not the oracle.",
+        **tiers(1500, 170, 40000, 2400, run_timeout_s=120)),
+    "C17": dict(
+        jobs=[dict(harness="c17_network", variant="a", weight=2, build=dist_build()), dict(harness="c17_network", variant="n", weight=1, build=dist_build())],
+        components=dict(real=REAL_SHMEM + ["libdist: NetworkInterfaceBuffered (aggregation, splitting, communication thread), NetworkIOMPI, HostFence, HostBarrier, Serialize.h"],
+                        stub=STUBS + ["MPI library (simulated: per-pair FIFO channels, delays, lazy Iprobe/Test, synchronous-send completion, collectives)", "hosts = forked processes on one shared scheduler"]),
+        expected_probes=["messages_checked"],
+        design_ref="3.17",
+        level_text="1-4 simulated hosts with 1-3 sender threads each exchange generated streams of tagged messages (sizes 0 B .. several MB, dense around the 1400-byte aggregation threshold) whose payloads are "
+                   "gSerialize'd typed values (POD and non-POD vectors, strings, pairs, gdeque, PODResizeableArray, DynamicBitSet, nested buffers, galois::Pair) over the real NetworkInterfaceBuffered + NetworkIOMPI, "
+                   "with fenced phases (HostFence / HostBarrier). Oracle: exactly-once, per-stream FIFO, routing, deserialised values equal and all bytes consumed (at whatever alignment the aggregation schedule produced), "
+                   "nothing of a phase arrives after its fence. Faults: message delay, lazy Iprobe/Test, host stalls, clock jumps (aggregation time-out), spurious weak-CAS failure.",
+        level_note="Sampling over seeds. MPI itself is a stub that keeps the standard's guarantees (reliable, non-overtaking per pair); loss/duplication/corruption are not injected because the code makes no promise about them.",
         **tiers(1500, 170, 40000, 2400, run_timeout_s=120)),
 }
 
